@@ -6,3 +6,5 @@ import PG.Props.C16
 #print axioms PG.C16_none_no_return
 #print axioms PG.C16_none_unterminated
 #print axioms PG.C16_agree
+#print axioms PG.C16_base_table_fin
+#print axioms PG.C16_base_table
